@@ -60,22 +60,15 @@ Proof.
 Qed.
 Print Assumptions C22_pull_push.
 
-(* KNOWN FINDING (known_findings.d/C22.txt, key reduce_no_replay/push-placement/first-item-not-flagged):
-   reduce_no_replay's push realisation sets its `was_updated` flag inside the reduce closure, which
-   ReduceState::accumulate does not call for the first item stored into an empty accumulator.  The
-   realisations agree outside that class and differ inside it (pull emits the item, push nothing). *)
-Theorem C22_reduce_no_replay_partial : forall f tick0 acc items,
-  ~ (acc = [] /\ length items = 1%nat /\ tick0 = false) ->
+(* reduce_no_replay: the pull and push realisations agree for every state, tick and items (the push
+   side sets its `was_updated` flag on every incoming item since /repo 6436e27651c; before, a single
+   first item arriving after tick 0 was dropped by the push side -- former finding, the witness is
+   kept as PRealise.reduce_no_replay_former_witness and in corpus/C22) *)
+Theorem C22_reduce_no_replay_pull_push : forall f tick0 acc items,
   let '(s, out) := push_run (reduce_nr_push_step f) (reduce_nr_push_fin tick0) (acc, false) items in
   (fst s, out) = reduce_nr_pull f tick0 acc items.
-Proof. exact reduce_no_replay_pull_push_partial. Qed.
-Print Assumptions C22_reduce_no_replay_partial.
-
-Theorem C22_reduce_no_replay_refuted : exists f tick0 acc items,
-  let '(s, out) := push_run (reduce_nr_push_step f) (reduce_nr_push_fin tick0) (acc, false) items in
-  (fst s, out) <> reduce_nr_pull f tick0 acc items.
-Proof. exact reduce_no_replay_pull_push_refuted. Qed.
-Print Assumptions C22_reduce_no_replay_refuted.
+Proof. exact reduce_no_replay_pull_push. Qed.
+Print Assumptions C22_reduce_no_replay_pull_push.
 
 (* the realisations are the list-level operator model of Dfir/Model.v *)
 Theorem C22_realisation_is_model :
